@@ -90,3 +90,34 @@ contract(F + "Continuum.copy",
                      "result.best_window_size == self.best_window_size", name="bounds-and-window"),
                   cl("RI(result)", name="RI")],
          serves={"C13", "C14", "C10"})
+
+# ------------------------------------------------------------------------------------------ observers (C13)
+contract(F + "Continuum.num_units", params={"self": CONT()}, returns=IntT(), is_property=True, macros=VIEW_MACROS,
+         ensures=[cl("result == NumUnits(self)", name="sum-of-counts")], serves={"C13", "C01", "C03", "C05"})
+
+contract(F + "Continuum.num_annotators", params={"self": CONT()}, returns=IntT(), is_property=True,
+         ensures=[cl("result == Nkeys(self) and result >= 0", name="count")], serves={"C13", "C01"})
+
+contract(F + "Continuum.__len__", params={"self": CONT()}, returns=IntT(),
+         ensures=[cl("result == Nkeys(self) and result >= 0", name="count")], serves={"C13"})
+
+contract(F + "Continuum.__bool__", params={"self": CONT()}, returns=BoolT(),
+         ensures=[cl("result == exists(k, 0, Nkeys(self), Cnt(self)[Kseq(self)[k]] != 0)", name="some-unit")],
+         serves={"C13", "C01", "C10", "C15", "C16"})
+
+contract(F + "Continuum.annotators", params={"self": CONT()}, returns=ObjT("SetStr"), is_property=True,
+         ensures=[cl("fresh_obj(result)", name="fresh"),
+                  cl("members(result) == Ann(self) and size(result) == Nkeys(self) and seqof(result) == Kseq(self)",
+                     name="the-annotators-ascending")],
+         serves={"C13", "C01", "C14"})
+
+contract(F + "Continuum.categories", params={"self": CONT()}, is_property=True, returns_expr="self._categories",
+         ensures=[cl("same_obj(result, self._categories)", name="the-live-set")], serves={"C13", "C14", "C01"})
+
+contract(F + "Continuum.bounds", params={"self": CONT()}, returns=TupleOf(RealT(), RealT()), is_property=True,
+         ensures=[cl("result[0] == self.bound_inf and result[1] == self.bound_sup", name="bounds")], serves={"C13", "C16"})
+
+contract(F + "Continuum.avg_num_annotations_per_annotator", params={"self": CONT()}, returns=RealT(), is_property=True,
+         macros=VIEW_MACROS,
+         raises={"ZeroDivisionError": {"iff": "Nkeys(self) == 0"}},
+         ensures=[cl("result == NumUnits(self) / Nkeys(self)", name="mean")], serves={"C13", "C01", "C02", "C03", "C05"})
